@@ -433,6 +433,17 @@
      : ((it).remOther > 0 && (bg_size)(it).cur.first < (it).bound && (bg_size)(it).cur.second < (it).bound))))
 #define ESEQ_QP(s) (G_P == G_Q ? (s).nPQ : (s).nQP)
 #define ESIT_REM_QP(it) (G_P == G_Q ? (it).remPQ : (it).remQP)
+/* ---- list<LabeledEdge<VLabel>> walk (in list order) */
+#define LESIT_OK(it, s)                                                       \
+  ((it).remPQ <= (s).nPQ && (it).remQP <= (s).nQP && (it).remOther <= (s).nOther && (it).bound == (s).bound && \
+   (it).nPQ == (s).nPQ && (it).nQP == (s).nQP && (it).firstPQ.v == (s).firstPQ.v && (it).firstQP.v == (s).firstQP.v && \
+   (it).pqBeforeQp == (s).pqBeforeQp &&                                        \
+   (BG_ESEQ_LEFT(it) == 0 ||                                                  \
+    (((it).cur.f0 == G_P && (it).cur.f1 == G_Q) ? ((it).remPQ > 0 && ((it).remPQ < (it).nPQ || (it).cur.f2.v == (s).firstPQ.v) && \
+                                                    (G_P == G_Q || (it).remQP < (it).nQP || (it).remPQ < (it).nPQ || (it).nQP == 0 || (s).pqBeforeQp)) \
+     : (G_P != G_Q && (it).cur.f0 == G_Q && (it).cur.f1 == G_P) ? ((it).remQP > 0 && ((it).remQP < (it).nQP || (it).cur.f2.v == (s).firstQP.v) && \
+                                                    ((it).remQP < (it).nQP || (it).remPQ < (it).nPQ || (it).nPQ == 0 || !(s).pqBeforeQp)) \
+     : ((it).remOther > 0 && (bg_size)(it).cur.f0 < (it).bound && (bg_size)(it).cur.f1 < (it).bound))))
 /* ---- unordered_set<VertexIndex> S and a walk over it */
 #define S_HAS_P(s) ((s).hasP)
 #define S_HAS_Q(s) (G_P == G_Q ? (s).hasP : (s).hasQ)
